@@ -12,17 +12,18 @@ import (
 // interpreter code. They are set exactly once, at process start, to the dispatchers below;
 // what a dispatcher does is decided by hs, which is only written between runs.
 type hookState struct {
-	S          *sim.Sched
-	StmtYield  bool
-	ProtoYield bool
-	Stmt       func(env *fast.Env, pos token.Pos)
-	Spin       func(env *fast.Env) // trailing spinInterrupt pseudo-statement executed
-	EnvAlloc   func(run *fast.Run, env *fast.Env, kind int)
-	EnvFree    func(run *fast.Run, env *fast.Env)
-	EnvRecycle func(run *fast.Run, env *fast.Env, n int) bool
-	GoID       func(goid uintptr) uintptr
-	Yield      func(site int, goid uintptr)
-	Growth     func() (int, int, bool)
+	S               *sim.Sched
+	StmtYield       bool
+	ProtoYield      bool
+	SkipCreateYield bool
+	Stmt            func(env *fast.Env, pos token.Pos)
+	Spin            func(env *fast.Env) // trailing spinInterrupt pseudo-statement executed
+	EnvAlloc        func(run *fast.Run, env *fast.Env, kind int)
+	EnvFree         func(run *fast.Run, env *fast.Env)
+	EnvRecycle      func(run *fast.Run, env *fast.Env, n int) bool
+	GoID            func(goid uintptr) uintptr
+	Yield           func(site int, goid uintptr)
+	Growth          func() (int, int, bool)
 }
 
 var hs hookState
@@ -93,6 +94,11 @@ func hYield(site int, goid uintptr) {
 		f(site, goid)
 	}
 	if s := hs.S; s != nil && hs.ProtoYield {
+		if site == fast.VerifSiteRunCreate && hs.SkipCreateYield {
+			// with real identities, whether a registry entry exists depends on the Go
+			// runtime's recycling of g structs: not a decision point, or runs do not replay
+			return
+		}
 		s.Yield(sim.SiteProto+site, false)
 	}
 }
